@@ -10,7 +10,7 @@
         copied : the bytes written into result buffers, summed over all reader invocations (a reader
                  that succeeds has written its whole result; one that fails has written what its
                  members returned before the failure),
-        nest   : the deepest nesting of reader invocations reached (the Go call depth of Read).
+        nesting   : the deepest nesting of reader invocations reached (the Go call depth of Read).
       The outcome is sig_read's (DepthCostProofs.sig_copy_read).
 
    2. RECURSION DEPTH of the signature parser.  signature.Parse (goparsec combinators) re-enters the
@@ -24,22 +24,22 @@ Local Open Scope N_scope.
 Definition blen (bs : bytes) : N := N.of_nat (List.length bs).
 
 (* ================= 1. bytes copied by the signature reader ================= *)
-Record meter := { copied : N; nest : N }.
-Definition mzero : meter := {| copied := 0; nest := 0 |}.
+Record meter := { copied : N; nesting : N }.
+Definition mzero : meter := {| copied := 0; nesting := 0 |}.
 (* two readers run one after the other at the same level *)
-Definition madd (a b : meter) : meter := {| copied := copied a + copied b; nest := N.max (nest a) (nest b) |}.
+Definition madd (a b : meter) : meter := {| copied := copied a + copied b; nesting := N.max (nesting a) (nesting b) |}.
 (* n more bytes written at this level *)
-Definition charge (n : N) (m : meter) : meter := {| copied := copied m + n; nest := nest m |}.
+Definition charge (n : N) (m : meter) : meter := {| copied := copied m + n; nesting := nesting m |}.
 (* the reader that made the calls metered by m *)
-Definition deeper (m : meter) : meter := {| copied := copied m; nest := nest m + 1 |}.
+Definition deeper (m : meter) : meter := {| copied := copied m; nesting := nesting m + 1 |}.
 
 Definition mres (A : Type) : Type := meter * Wire.res (A * bytes).
 
 (* a reader without members: on success it has produced its result *)
 Definition mleaf (r : Wire.res (bytes * bytes)) : mres bytes :=
   match r with
-  | ROk (d, rest) => ({| copied := blen d; nest := 1 |}, r)
-  | _ => ({| copied := 0; nest := 1 |}, r)
+  | ROk (d, rest) => ({| copied := blen d; nesting := 1 |}, r)
+  | _ => ({| copied := 0; nesting := 1 |}, r)
   end.
 
 (* the loops of Wire.v over metered element readers: each element returned is written into the
@@ -73,7 +73,7 @@ Section MLoops.
              | ROk (d, bs') =>
                  if Nat.ltb (List.length bs') (List.length bs)
                  then mrep_slow f (n - 1) bs' (d :: acc) (madd ma (charge (blen d) m))
-                 else ({| copied := copied ma + n * (copied m + blen d); nest := N.max (nest ma) (nest m) |},
+                 else ({| copied := copied ma + n * (copied m + blen d); nesting := N.max (nesting ma) (nesting m) |},
                        ROk (rev acc ++ repeat d (N.to_nat n), bs'))
              | RErr l => (madd ma m, RErr l)
              | RPanic => (madd ma m, RPanic)
@@ -125,12 +125,12 @@ Definition mvar (p : bytes -> mres bytes) (bs : bytes) : mres bytes :=
   | ROk (n, r) =>
       let '(m, x) := mrep p n r in
       (deeper (charge 4 m), do '(d, r') <- cat_res x; ROk (enc_u32 n ++ d, r'))
-  | RErr l => ({| copied := 0; nest := 1 |}, RErr l)
-  | RPanic => ({| copied := 0; nest := 1 |}, RPanic)
-  | RFuel => ({| copied := 0; nest := 1 |}, RFuel)
+  | RErr l => ({| copied := 0; nesting := 1 |}, RErr l)
+  | RPanic => ({| copied := 0; nesting := 1 |}, RPanic)
+  | RFuel => ({| copied := 0; nesting := 1 |}, RFuel)
   end.
 
-Definition mfail {A} (r : Wire.res (A * bytes)) : mres A := ({| copied := 0; nest := 1 |}, r).
+Definition mfail {A} (r : Wire.res (A * bytes)) : mres A := ({| copied := 0; nesting := 1 |}, r).
 
 Section WithParse.
   Variable parse : string -> option ty.
@@ -198,10 +198,10 @@ End WithParse.
 Definition sig_copied (c : wcfg) (t : ty) (bs : bytes) : N :=
   copied (fst (sig_copy parse_opt c (S (List.length bs)) t bs)).
 Definition sig_nest (c : wcfg) (t : ty) (bs : bytes) : N :=
-  nest (fst (sig_copy parse_opt c (S (List.length bs)) t bs)).
+  nesting (fst (sig_copy parse_opt c (S (List.length bs)) t bs)).
 
 (* the reader nesting of a type without looking at the data (dv, dobj: the nesting of the readers of
-   "m" and "o"): what [nest] is at most for a type that holds no dynamic value
+   "m" and "o"): what [nesting] is at most for a type that holds no dynamic value
    (DepthCostProofs.sig_copy_nest_static) *)
 Fixpoint rdepth_g (dv dobj : N) (t : ty) : N :=
   match t with
